@@ -4,6 +4,8 @@
 #include <Eigen/Core>
 #include <complex>
 #include <thread>
+#include <mutex>
+#include <condition_variable>
 // guarded factorization hook: counts the calls of expand_basis (each ends in one of the two breakdown events)
 static thread_local long g_expand_calls = 0;
 #define SPECTRA_VERIF_FAC_HOOK(point, fac, k) do { if (point[0] == 'b') g_expand_calls++; } while (0)
@@ -38,6 +40,7 @@ static void build_cases(const vf::Ctx& ctx)
     for (long c = 0; c < NSEEDCH; c++) for (long j = 0; j < 5; j++) g_cases.push_back({2, c, j});
     for (long t = 0; t < (ctx.thorough ? 16 : 4); t++) g_cases.push_back({3, t, 0});
     for (long t = 0; t < (ctx.thorough ? 400 : 60); t++) g_cases.push_back({4, t, 0});
+    for (long t = 0; t < (ctx.thorough ? 60 : 12); t++) g_cases.push_back({5, t, 0});
 }
 long vf_ncases(const vf::Ctx& ctx) { build_cases(ctx); return (long) g_cases.size(); }
 
@@ -350,6 +353,94 @@ static void solver_streams(vf::Ctx& ctx, long t)
     if (ctx.want_sample) ctx.set_sample(vf::J().kv("kind", "solver-streams").kv("n", n).kv("rank_deficient", deficient).kv("ncv", ncv).str());
 }
 
+// ---- "default-initialised solvers are reproducible across ... threads": several threads construct solvers of ONE instantiation on problems of different
+// size and call the default init() at the same time. Each thread's operator holds its first application at a rendezvous until every thread has entered its own
+// first application (so every init() has drawn its start vector while the others' are still in use), and only then looks at the vector it was handed:
+// it must still be the stream of seed 0, and the run must end bit-identical to the same run made alone before.
+struct Rendezvous
+{
+    std::mutex m; std::condition_variable cv; int waiting = 0, parties = 0; bool open = false;
+    void arrive() { std::unique_lock<std::mutex> l(m); if (++waiting >= parties) { open = true; cv.notify_all(); } else cv.wait_for(l, std::chrono::seconds(20), [&] { return open; }); }
+};
+template <class S>
+struct GateOp
+{
+    using Scalar = S;
+    using Mat = Eigen::Matrix<S, Eigen::Dynamic, Eigen::Dynamic>;
+    const Mat& A; Rendezvous* rv; mutable long calls = 0; mutable int first_ok = -1;
+    GateOp(const Mat& a, Rendezvous* r) : A(a), rv(r) {}
+    Eigen::Index rows() const { return A.rows(); }
+    Eigen::Index cols() const { return A.cols(); }
+    void perform_op(const S* x, S* y) const
+    {
+        if (++calls == 1)
+        {
+            if (rv) rv->arrive();
+            first_ok = StreamRef<S>::matches(x, (int) A.rows(), 0) ? 1 : 0;
+        }
+        Eigen::Map<const Eigen::Matrix<S, Eigen::Dynamic, 1>> xv(x, A.cols());
+        Eigen::Map<Eigen::Matrix<S, Eigen::Dynamic, 1>> yv(y, A.rows());
+        yv.noalias() = A * xv;
+    }
+};
+template <class S, class Solver>
+static uint64_t gate_run(const Eigen::Matrix<S, Eigen::Dynamic, Eigen::Dynamic>& A, Rendezvous* rv, int& first_ok)
+{
+    GateOp<S> op(A, rv);
+    Solver es(op, 3, 8);
+    es.init();
+    es.compute(Spectra::SortRule::LargestMagn, 200, 1e-10);
+    auto ev = es.eigenvalues();
+    auto U = es.eigenvectors();
+    first_ok = op.first_ok;
+    uint64_t h = vf::Ctx::fnv_bytes(ev.data(), sizeof(ev[0]) * (size_t) ev.size());
+    // (complex<double> has no padding; double neither)
+    return vf::Ctx::fnv_bytes(U.data(), sizeof(U(0, 0)) * (size_t) U.size(), h);
+}
+template <class S, class Solver>
+static void solver_threads_t(vf::Ctx& ctx, const char* name, long t, bool hermitian)
+{
+    auto& r = ctx.rng;
+    const int T = (int) r.range(2, 6);
+    std::vector<Eigen::Matrix<S, Eigen::Dynamic, Eigen::Dynamic>> mats;
+    for (int k = 0; k < T; k++)
+    {
+        const int n = 12 + 5 * k + (int) r.range(0, 3);   // all different
+        Eigen::Matrix<S, Eigen::Dynamic, Eigen::Dynamic> A(n, n);
+        for (int i = 0; i < n; i++) for (int j = 0; j <= i; j++) { const S v = S(r.gauss()); A(i, j) = v; A(j, i) = v; }
+        if (!hermitian) for (int i = 0; i < n; i++) for (int j = 0; j < i; j++) A(j, i) = S(r.gauss());
+        mats.push_back(A);
+    }
+    std::vector<uint64_t> alone(T), conc(T);
+    std::vector<int> ok_alone(T, -1), ok_conc(T, -1);
+    for (int k = 0; k < T; k++) alone[k] = gate_run<S, Solver>(mats[k], nullptr, ok_alone[k]);
+    Rendezvous rv; rv.parties = T;
+    std::vector<std::thread> th;
+    for (int k = 0; k < T; k++) th.emplace_back([&, k]() { conc[k] = gate_run<S, Solver>(mats[k], &rv, ok_conc[k]); });
+    for (auto& x : th) x.join();
+    for (int k = 0; k < T; k++)
+    {
+        if (ok_alone[k] != 1 || ok_conc[k] != 1)
+            ctx.violation(std::string("solver-threads/start-vector-is-not-the-stream-of-seed-0/") + name, vf::J().kv("threads", T).kv("thread", k).kv("n", (long) mats[k].rows()).kv("alone_ok", ok_alone[k]).kv("concurrent_ok", ok_conc[k]).str());
+        if (alone[k] != conc[k])
+            ctx.violation(std::string("solver-threads/result-differs-from-the-run-alone/") + name, vf::J().kv("threads", T).kv("thread", k).kv("n", (long) mats[k].rows()).str());
+    }
+    ctx.count("solver_threads/launches");
+    ctx.count("solver_threads/solvers_started_together", T);
+    ctx.count("evals", T);
+    ctx.nontriv(std::string("solver-threads/") + name + "/" + std::to_string(t));
+    if (ctx.want_sample) ctx.set_sample(vf::J().kv("kind", "solver-threads").kv("solver", name).kv("threads", T).str());
+}
+static void solver_threads(vf::Ctx& ctx, long t)
+{
+    switch (t % 3)
+    {
+        case 0: solver_threads_t<double, Spectra::SymEigsSolver<GateOp<double>>>(ctx, "SymEigsSolver<double>", t, true); break;
+        case 1: solver_threads_t<double, Spectra::GenEigsSolver<GateOp<double>>>(ctx, "GenEigsSolver<double>", t, false); break;
+        default: solver_threads_t<std::complex<double>, Spectra::HermEigsSolver<GateOp<std::complex<double>>>>(ctx, "HermEigsSolver<complex<double>>", t, true);
+    }
+}
+
 void vf_run_case(vf::Ctx& ctx, long idx)
 {
     build_cases(ctx);
@@ -360,6 +451,7 @@ void vf_run_case(vf::Ctx& ctx, long idx)
         case 1: orbit(ctx); break;
         case 2: seeds(ctx, c.a, c.b); break;
         case 4: solver_streams(ctx, c.a); break;
+        case 5: solver_threads(ctx, c.a); break;
         default: threads(ctx, c.a);
     }
 }
